@@ -1,4 +1,5 @@
 import FlowRecordProofs.Lemmas.Rdump
+import FlowRecordProofs.Lemmas.RdumpUri
 /-!
 C16 — rdump output is the specified slice of the filtered input.
 Property theorems only (helper lemmas: `Lemmas/Rdump.lean`). `pipeline` is `Model/Rdump.lean`; the order of the loop
@@ -16,7 +17,9 @@ def C16_NoInterrupt {V : Type} (sel : Option (Matcher (Rec V) ErrKind)) (srcs : 
 /-- Inst: the loop body is override-source, override-classification, rewrite, emit — in this order; selection
     happens inside `record_stream`, i.e. before the slice; the stop of the slice is None when COUNT is 0/absent;
     `record_stream` continues with the next source after IOError and after any other Exception and re-raises only
-    KeyboardInterrupt; the writer is closed in a `finally`; the expansion keeps the original's metadata. -/
+    KeyboardInterrupt; the writer is closed in a `finally`; the expansion keeps the original's metadata; the
+    timestamp descriptor, the rewriter's arguments and the pieces of the URI construction are the ones the model's
+    functions transcribe. -/
 theorem C16_inst_shape :
     Gen.rdumpLoopOrder = ["source", "classification", "rewrite", "emit"] ∧
     Gen.rdumpSelectsInsideStream = true ∧ Gen.rdumpStopNoneWhenCountFalsy = true ∧
@@ -28,7 +31,16 @@ theorem C16_inst_shape :
     Gen.rdumpCompiledUnlessNoCompile = true ∧ Gen.tsExpandKeepsMetadata = true ∧
     Gen.rewriterIdentityWhenNoOptions = true ∧ Gen.rewriterKeepsAllValues = true ∧
     Gen.rewriterFieldsInRequestedOrder = true ∧ Gen.rewriterExcludeKeepsOrder = true ∧
-    Gen.rewriterKeepsName = true ∧ Gen.tsExpandNoDatetimeIsIdentity = true := by decide
+    Gen.rewriterKeepsName = true ∧ Gen.tsExpandNoDatetimeIsIdentity = true ∧
+    Gen.tsRecordFields = [("datetime", "ts"), ("string", "ts_description")] ∧ Gen.tsLoopRebindsRecord = true ∧
+    Gen.rdumpRewriterCondition = "fields or fields_to_exclude or args.exec_expression" ∧
+    Gen.rdumpRewriterArgs = "fields, fields_to_exclude, args.exec_expression" ∧
+    Gen.rdumpDefaultUri = "text://" ∧ Gen.rdumpModeOnlyWithoutWriter = true ∧
+    Gen.rdumpQueryKeys = ["fields", "exclude", "format_spec"] ∧ Gen.rdumpQueryDropsEmpty = true ∧
+    Gen.rdumpQueryAppendShape = "amp-only-or-question-plus-query" ∧
+    Gen.rdumpSplitWrapNoScheme = "split://{uri}" ∧ Gen.rdumpSplitWrapScheme = "split+{uri}" ∧
+    Gen.rdumpSplitQueryKeys = ["count", "suffix-length"] ∧ Gen.rdumpSplitRequiresWriter = true ∧
+    Gen.rdumpSplitRebuild = "parsed.scheme + '://' + parsed.netloc + parsed.path + '?' + query" := by decide
 
 /-- Per-source isolation, for every placement of failing sources and every selector (raising ones included):
     the stream is the concatenation, in source order, of what each source's own reader yields; a source that fails
@@ -270,6 +282,21 @@ theorem C16_uri_split :
     adapterOf (splitWrap "/tmp/x/out.records.gz".toList 10 2)
       = ("split".toList, "/tmp/x/out.records.gz".toList, [("count".toList, "10".toList), ("suffix-length".toList, ['2'])]) := by
   decide
+
+/-- `--split` in general: for every writer URI `scheme://path` (scheme without ':' and '+', path without '?' and
+    '#') and every COUNT and suffix length, rdump hands `split+scheme://path?count=COUNT&suffix-length=LEN` to
+    `RecordWriter`, and `RecordAdapter` takes it apart into the split adapter, the user's own URI — unchanged — and
+    exactly these two arguments. -/
+theorem C16_uri_split_roundtrip (scheme path : Rdump.Str) (count suffixLen : Nat)
+    (hs : ∀ c ∈ scheme, c ≠ ':' ∧ c ≠ '+') (hp : ∀ c ∈ path, c ≠ '?' ∧ c ≠ '#') :
+    splitWrap (scheme ++ schemeSep ++ path) count suffixLen
+      = "split+".toList ++ scheme ++ schemeSep ++ path ++ ['?'] ++
+          ("count".toList ++ ['='] ++ natStr count ++ ['&'] ++ "suffix-length".toList ++ ['='] ++ natStr suffixLen) ∧
+    adapterOf (splitWrap (scheme ++ schemeSep ++ path) count suffixLen)
+      = ("split".toList, scheme ++ schemeSep ++ path,
+         [("count".toList, natStr count), ("suffix-length".toList, natStr suffixLen)]) :=
+  splitWrapS_adapter scheme path _ _ hs hp (plain_natStr count).1 (plain_natStr suffixLen).1
+    (plain_natStr count).2 (plain_natStr suffixLen).2
 
 -- Non-vacuity --------------------------------------------------------------------------------------------------
 namespace C16_nonvacuous
